@@ -46,7 +46,7 @@ def vec_queries(Query, ops, cfgs, timeout=300, unwind=None):
             if d['VF_KIND'] == 0 and d['VF_CLS'] == 0 and op in NEEDS_NONEMPTY: continue     # an amc::vector without storage is empty
             if 'input' in op: timeout = max(timeout, 600)
             qs.append(Query('%s.%s' % (op, cfg_name(d)), 'vec_ops.cpp', 'h_' + op, defs=d, arena=arena_for(d), unwind=unwind or d['VF_MAXM'] + 2, timeout=timeout,
-                            mem_gb=(5 if d['VF_E'] in ('R', 'X') else 3) * (4 if op == 'insert_range_input' else 2 if 'input' in op else 1),
+                            mem_gb=(5 if d['VF_E'] in ('R', 'X') else 3) * (4 if op == 'insert_range_input' else 2 if ('input' in op or (d['VF_E'] in ('R', 'X') and op.startswith(('insert_n', 'insert_range', 'insert_il', 'alias_insert_n')))) else 1),
                             optional_reach=(2,) if op in ('shrink_to_fit', 'reserve') else (),
                             symbolic='state class (inline/heap), size, capacity, element values, position, count, value',
                             bounds=dict(N=d['VF_N'], size_max=d.get('VF_CMAX', d['VF_N'] + 3), capacity_max=d.get('VF_CMAX', d['VF_N'] + 3), count_max=d.get('VF_COUNT_MAX', 3), values='8-bit')))
